@@ -30,7 +30,13 @@ type epoch struct {
 	sorts   map[string]hent
 	limit   uint32
 	body    map[*ssa.BasicBlock]bool
+	final   bool // the loop has been executed completely: `written` is final
+	// position in the write log and in the declaration list when the epoch began
+	logStart  int
+	itemStart int
 }
+
+type writeRec struct{ key, ref string }
 
 // Heap maps heap keys to array terms. It is copied when control flow forks.
 type Heap struct {
@@ -76,6 +82,14 @@ func (x *Exec) baseFor(ep *epoch, key, sort string, idx string) string {
 	if b, ok := ep.bases[key]; ok {
 		return b
 	}
+	if ep.final && !ep.written[key] && !ep.all {
+		// first touched after the loop has been closed and never written in it: the value
+		// it had before the loop
+		b := x.hget(ep.pre, key, sort, idx)
+		ep.bases[key] = b
+		ep.sorts[key] = hent{term: b, sort: sort, idx: idx, base: b}
+		return b
+	}
 	b := x.g.Const("H"+itoa(ep.id)+":"+key, heapArraySort(sort, idx))
 	ep.bases[key] = b
 	ep.sorts[key] = hent{term: b, sort: sort, idx: idx, base: b}
@@ -85,6 +99,7 @@ func (x *Exec) baseFor(ep *epoch, key, sort string, idx string) string {
 // hset records that the array of key is now term, obtained from the previous array by
 // a store at object reference ref ("" = unrelated term: it becomes a new base).
 func (x *Exec) hset(h *Heap, key, sort string, idx string, term string, ref string) {
+	x.writeLog = append(x.writeLog, writeRec{key, ref})
 	old, ok := h.m[key]
 	if !ok || ref == "" || old.base == "" {
 		h.m[key] = hent{term: term, sort: sort, idx: idx, base: term}
@@ -107,7 +122,7 @@ func (x *Exec) hset(h *Heap, key, sort string, idx string, term string, ref stri
 func (x *Exec) havocAll(h *Heap, all bool) (*Heap, *epoch) {
 	x.epochN++
 	ep := &epoch{id: x.epochN, pre: h.clone(), written: map[string]bool{}, bases: map[string]string{}, sorts: map[string]hent{}, all: all,
-		limit: x.allocLimit()}
+		limit: x.allocLimit(), logStart: len(x.writeLog), itemStart: len(x.g.items)}
 	x.epochs = append(x.epochs, ep)
 	return &Heap{m: map[string]hent{}, ep: ep}, ep
 }
@@ -117,6 +132,7 @@ func (x *Exec) havocAll(h *Heap, all bool) (*Heap, *epoch) {
 func (x *Exec) finalizeEpochs() {
 	for i := len(x.epochs) - 1; i >= 0; i-- {
 		ep := x.epochs[i]
+		ep.final = true
 		if ep.all {
 			continue
 		}
@@ -126,10 +142,22 @@ func (x *Exec) finalizeEpochs() {
 		}
 		sort.Strings(keys)
 		for _, k := range keys {
+			s := ep.sorts[k]
 			if ep.written[k] {
+				// written in the loop: if every write went to an object that is the same in every
+				// iteration (a parameter, something fixed before the loop, a field the loop never
+				// writes), all other objects keep the contents they had before the loop
+				refs, stable := x.stableRefs(ep, k)
+				if stable {
+					pre := x.hget(ep.pre, k, s.sort, s.idx)
+					t := pre
+					for _, r := range refs {
+						t = "(store " + t + " " + r + " (select " + ep.bases[k] + " " + r + "))"
+					}
+					x.g.Assume(eq(ep.bases[k], t))
+				}
 				continue
 			}
-			s := ep.sorts[k]
 			pre := x.hget(ep.pre, k, s.sort, s.idx)
 			x.g.Assume(eq(ep.bases[k], pre))
 		}
@@ -255,4 +283,55 @@ func itoa(i int) string {
 		b = append([]byte{'-'}, b...)
 	}
 	return string(b)
+}
+
+// stableRefs returns the object references written under key k since the epoch began and
+// whether each of them denotes the same object in every iteration of the loop.
+func (x *Exec) stableRefs(ep *epoch, k string) ([]string, bool) {
+	seen := map[string]bool{}
+	var refs []string
+	for _, w := range x.writeLog[ep.logStart:] {
+		if w.key != k || seen[w.ref] {
+			continue
+		}
+		seen[w.ref] = true
+		if w.ref == "" {
+			return nil, false
+		}
+		refs = append(refs, w.ref)
+	}
+	if len(refs) > 8 {
+		return nil, false
+	}
+	unwrittenBase := map[string]bool{}
+	for key, b := range ep.bases {
+		if !ep.written[key] {
+			unwrittenBase[b] = true
+		}
+	}
+	g := x.g
+	for _, r := range refs {
+		if isAllocRef(r) || isLiteral(r) {
+			continue
+		}
+		ok := true
+		in := map[int]bool{}
+		var start []int
+		g.symbolsIn(r, func(i int) { start = append(start, i) })
+		g.closure(start, in)
+		for i := range in {
+			it := g.items[i]
+			if it.kind != "declare" {
+				continue
+			}
+			if i < ep.itemStart || unwrittenBase[it.name] {
+				continue
+			}
+			ok = false
+		}
+		if !ok {
+			return nil, false
+		}
+	}
+	return refs, true
 }
